@@ -56,7 +56,8 @@ Hypothesis rollback_to_exact : forall n t, sq_rbto E n t = ref_rbto n t.
 Variable C : cfg.
 Hypothesis savepoints : c_nosp C = false.   (* the dialector implements save points *)
 Variable fault : nat -> bool.
-Let nest := negb (c_nonest C).
+(* nested transactions are in force for the handle the body runs on *)
+Definition nest_of (s : st) : bool := negb (c_nonest C || s_nonest s).
 
 (* what a body never changes: the calls that reached database/sql's Tx API, and (without Cancel)
    the state of the context *)
@@ -65,7 +66,7 @@ Definition s_logd (s : st) : list txcall * bool * bool := (s_txlog s, s_dead s, 
 Definition Inv (base : stack) (ok : bool) (h : option err) (s : st) (t : tbl) (local : stack)
     (l : list obs) (h' : option err) (s' : st) (t' : tbl) (local' : stack) : Prop :=
   s_tx s' = Some (mkTx t' (local' ++ base)) /\
-  spec_list nest l (t, fu (local ++ base)) = (t', fu (local' ++ base)) /\
+  spec_list (nest_of s) l (t, fu (local ++ base)) = (t', fu (local' ++ base)) /\
   gen_ok (s_gen s') (local' ++ base) /\ (s_gen s <= s_gen s')%nat /\ new_names (s_gen s) local local' /\
   s_db s' = s_db s /\ s_logd s' = s_logd s /\
   forallb prop_ok l = true /\ flags_le (s_fl s) (s_fl s') /\
@@ -109,6 +110,9 @@ Proof.
   intros base ok h s t local l1 h1 s1 t1 local1 l2 h2 s2 t2 local2 H1 H2.
   destruct H1 as (A1 & A2 & A3 & A4 & A5 & A6 & A7 & A8 & A9 & n1 & B1 & B2 & B3).
   destruct H2 as (C1 & C2 & C3 & C4 & C5 & C6 & C7 & C8 & C9 & n2 & D1 & D2 & D3).
+  assert (En : nest_of s1 = nest_of s).
+  { unfold nest_of. rewrite (f_equal snd A7 : s_nonest s1 = s_nonest s). reflexivity. }
+  rewrite En in C2.
   unfold Inv. split; [exact C1|].
   split. { rewrite spec_list_app, A2; exact C2. }
   split; [exact C3|]. split; [lia|].
